@@ -437,7 +437,7 @@ def fusion_cases(ch):
     cands = [
         i
         for i in range(len(toks) - 1)
-        if toks[i][1] == 'w' and toks[i + 1][1] == 'w' and _wordish(toks[i][0]) and _wordish(toks[i + 1][0], first=False)
+        if toks[i][1] == 'w' and toks[i + 1][1] == 'w' and _wordish(toks[i][0]) and _wordish(toks[i + 1][0], first=False, slash=True)
     ]
     if not cands:
         return None
@@ -445,8 +445,9 @@ def fusion_cases(ch):
     return {'kind': kind, 'toks': [list(t) for t in toks], 'at': at}
 
 
-def _wordish(t, first=True):
-    if not t or not all(c.isalnum() or c == '_' for c in t):
+def _wordish(t, first=True, slash=False):
+    # slash: the second word of a fusion may be a channel name with '/' in it (`causes/b` is one name too)
+    if not t or not all(c.isalnum() or c == '_' or (slash and c == '/') for c in t):
         return False
     return t[0].isalpha() if first else True
 
